@@ -7,6 +7,6 @@ if ! git -C /repo diff --quiet; then echo "/repo has uncommitted changes"; exit 
 git -C /repo apply "$PWD/$d/patch.diff" || { echo "patch does not apply"; exit 2; }
 trap 'git -C /repo checkout -- . ; git -C /repo clean -fdq xandikos 2>/dev/null' EXIT
 for p in "$@"; do
-  ./check $p --tier ${TIER:-quick} > /var/tmp/seedrun_$p.txt 2>&1; rc=$?
-  echo "$d $p exit=$rc violations=$(grep -c '^VIOLATION' /var/tmp/seedrun_$p.txt) $(grep -A1 '^VIOLATION' /var/tmp/seedrun_$p.txt | grep -v '^VIOLATION\|^--' | sed 's/ at step.*//' | sort | uniq -c | sort -rn | head -3 | tr '\n' ';')"
+  ./check $p --tier ${TIER:-quick} > /var/tmp/seedrun_$(basename $d)_$p.txt 2>&1; rc=$?
+  echo "$d $p exit=$rc violations=$(grep -c '^VIOLATION' /var/tmp/seedrun_$(basename $d)_$p.txt) $(grep -A1 '^VIOLATION' /var/tmp/seedrun_$(basename $d)_$p.txt | grep -v '^VIOLATION\|^--' | sed 's/ at step.*//' | sort | uniq -c | sort -rn | head -3 | tr '\n' ';')"
 done
